@@ -149,7 +149,9 @@ class DynamicStructuredGrammaticalEvolutionRepresentation(
         return random_tree(GenotypeBackedSource(decider), self.grammar, decider)
 
     def mutate(self, random: RandomSource, genotype: Genotype, **kwargs) -> Genotype:
-        dna = deepcopy(genotype.dna)
+        # (the gene lists are copied, the keys are kept as they are: a key can be a Union type that mentions a refinement
+        # object, whose deep copy is a different, unequal key)
+        dna = {k: list(v) for k, v in genotype.dna.items()}
         alternatives = list(genotype.dna.keys())
         if alternatives:
             rkey = random.choice(alternatives)
